@@ -112,7 +112,7 @@ def asContainer (j : Json) : Except String (Container UName UId) := do
 
 /-- `["group"|"flow", name, uuid]` = a direct `record_*_uuid` call (e.g. `add_flow`);
     `["row:group"|"row:flow", name, obj_id]` = what a sheet row records while parsing -/
-def asPre (j : Json) : Except String (List (Occ UName UId)) := do
+def asPreOccs (j : Json) : Except String (List (Occ UName UId)) := do
   let a ← j.getArr?
   let n ← asOptStr (← arrAt a 1)
   let g ← asGiven (← arrAt a 2)
@@ -122,6 +122,18 @@ def asPre (j : Json) : Except String (List (Occ UName UId)) := do
   | Json.str "row:group" => pure (preOfRow (.groupRow n g))
   | Json.str "row:flow" => pure (preOfRow (.startFlow n g))
   | _ => throw "pre"
+
+/-- … or `["block", [rows…]]` = the rows of one `insert_as_block` -/
+def asPre (j : Json) : Except String (List (PreItem UName UId)) := do
+  let a ← j.getArr?
+  match ← arrAt a 0 with
+  | Json.str "block" => do
+      let rows ← (← arrAt a 1).getArr?
+      let os ← rows.toList.mapM asPreOccs
+      pure [.scratch os.flatten]
+  | _ => do
+      let os ← asPreOccs j
+      pure (os.map .own)
 
 def occJ (o : Occ UName UId) : Json :=
   Json.arr #[siteJ o.site, kindJ o.kind, nameJ o.name, uidJ o.given]
@@ -159,7 +171,8 @@ def handleUuid (op : String) (j : Json) : Except String Json := do
   | "uuid.occs" => do
       let pre ← (← getArr j "pre").toList.mapM asPre
       let c ← asContainer (← j.getObjVal? "container")
-      pure (Json.arr ((pre.flatten ++ occsOf c).map occJ).toArray)
+      let _ := pre
+      pure (Json.arr ((occsOf c).map occJ).toArray)
   | _ => throw s!"unknown op {op}"
 
 end Rpft.Drv
